@@ -27,6 +27,7 @@ import Proofs.TableTrackQueries
 import Proofs.TableLists
 import Proofs.TableListsWf
 import Proofs.TableEntity
+import Proofs.TableListsTyped
 import Proofs.TableInfo
 
 namespace EngineModel.Properties.C18
@@ -317,6 +318,25 @@ theorem C18_playlist_roundtrip_current_partial (ops : List LOp) (r : Row PField)
     pGet genLStmts d' i = .ok (some (normRowP i r)) :=
   playlist_add_get C18_list_bindings_aligned (wf_lRun C18_list_bindings_aligned LDb.empty_wf ops) hr h
 
+/-- **`playlist_table::get` is defined on reachable states.**  After any history
+of playlist / entity operations whose row arguments are well-typed (`wtLOp`:
+`wtRowP` for add / update — which excludes exactly the last-edit times of the
+recorded finding), from the empty tables and for the statements of the current
+source, `get(id)` answers `nullopt` or a row: never undefined behaviour
+(`parse_ft` overflow), never an exception.  The invariant behind it (`leTyped`:
+every stored last-edit text converts back) is kept by every such operation from
+any state that satisfies it. -/
+theorem C18_playlist_get_defined :
+    (∀ (ops : List LOp), (∀ op ∈ ops, wtLOp op) → ∀ i,
+      pGet genLStmts (lRun genLStmts LDb.empty ops) i = .ok none ∨
+      ∃ g, pGet genLStmts (lRun genLStmts LDb.empty ops) i = .ok (some g)) ∧
+    (∀ {st : LStmts}, alignedL st = true → ∀ {d : LDb}, leTyped d.pl →
+      (∀ op, wtLOp op → leTyped (lStep st d op).pl) ∧
+      (∀ i, pGet st d i = .ok none ∨ ∃ g, pGet st d i = .ok (some g))) :=
+  ⟨fun ops hops i => playlist_get_defined C18_list_bindings_aligned
+      (le_lRun C18_list_bindings_aligned (fun _ h => by cases h) ops hops) i,
+   fun ha _ hwf => ⟨fun _ hop => le_lStep ha hwf hop, fun i => playlist_get_defined ha hwf i⟩⟩
+
 /-! ### information_table -/
 
 /-- The Information statements regenerated from the current source are aligned with the Spec. -/
@@ -389,6 +409,7 @@ example : (pUpdate genLStmts (pAdd genLStmts LDb.empty (exPlaylist [65] 0 0 1 tr
     (fun f => if f = .id then .int 1 else exPlaylist [66] 0 0 2 false f)).2 = .ok () := by decide
 example : noEntry LDb.empty.pe 1 1 := by intro x hx; cases hx
 example : noEntry3 LDb.empty.pe 1 1 [97] := by intro x hx; cases hx
+example : wtLOp (.pAdd (exPlaylist [65] 0 0 1500000000123456789 true)) := by intro f; cases f <;> rfl
 /-- the greatest-uuid hypothesis with an entry present: "a" < "b" -/
 example : ∀ x ∈ (eAddBack genLStmts LDb.empty (exEntity 1 1 [97] 0) false).1.pe,
     (x .listId == .int 1 && x .trackId == .int 1) = true → bytesLt (uuidOf x) [98] = true := by
